@@ -346,4 +346,17 @@ MUTATIONS += [
             x = x[..., 1:] * ramp[: x.shape[-1] - 1]
 """, expect={}),
     dict(id="q-r5d-ramp-sliced-from-iota", quiet=True, file=TNODES, old="        arange = torch.arange(1, degp1).to(x)  # shape (deg,).", new="        arange = torch.arange(degp1)[1:].to(x)  # shape (deg,).", expect={}),
+    # ---- wave-3 seeds as kept
+    dict(id="w3-c02c-addressbook-prefix", patch="seeded/C02c/patch.diff", expect={"C01": ["R3g:"], "C02": ["R3g:"]}),
+    dict(id="w3-c02d-stacked-sorted", patch="seeded/C02d/patch.diff", expect={"C01": ["R3g:"], "C02": ["R3g:"]}),
+    dict(id="w3-c03c-einsum-index-order", patch="seeded/C03c/patch.diff", expect={"C03": ["R12b:"], "C02": ["R12b:"]}),
+    dict(id="w3-c03d-integrate-topological-outputs", patch="seeded/C03d/patch.diff", expect={"C03": ["R7e:"]}),
+    dict(id="w3-c06c-dtype-fold-key", patch="seeded/C06c/patch.diff", expect={"C06": ["R3d:"], "C02": ["R3d:"], "C13": ["R3d:"], "C17": ["R3d:"]}),
+    dict(id="w3-c06d-evidence-repeat-view", patch="seeded/C06d/patch.diff", expect={"C06": ["R4x:"], "C01": ["R4x:"]}),
+    dict(id="w3-c10c-class-level-state", patch="seeded/C10c/patch.diff", expect={"C10": ["R6s:"]}),
+    dict(id="w3-c10d-module-compile", patch="seeded/C10d/patch.diff", expect={"C10": ["R6d:"], "C18": ["R6d:"]}),
+    dict(id="w3-c19b-fold-unwrap", patch="seeded/C19b/patch.diff", expect={"C10": ["R6p:"], "C19": ["R6p:"]}),
+    dict(id="w3-c04c-gaussian-logpartition", patch="seeded/C04c/patch.diff", expect={"C04": ["R2f:"]}),
+    dict(id="w3-c04d-kron-perm-row", patch="seeded/C04d/patch.diff", expect={"C04": ["L2:"]}),
+    dict(id="w3-c01d-lse-clamp", patch="seeded/C01d/patch.diff", expect={"C01": ["R11c:"], "C12": ["R11c:"], "C13": ["R11c:"]}),
 ]
